@@ -119,16 +119,16 @@ pub mod proofs {
     #[kani::proof]
     #[kani::stub(alloc::alloc::alloc, c03_alloc)]
     #[kani::stub(alloc::alloc::dealloc_nonnull, c03_dealloc)]
-    #[kani::unwind(18)]
+    #[kani::unwind(6)]
     pub fn c03_seq_iterator_action() {
         reg::init_globals();
-        let s = ok(Signals::new(&[SA]));
+        let s = ok(Signals::new(&[libc::SIGHUP]));
         assert!(s.is_some(), "C03: constructing Signals failed");
         let fill: u32 = kani::any();
         kani::assume(fill <= libc::vshim::net::PAIR_CAP);
         unsafe { K::fds[5].fill = fill };
-        deliver(SA);
-        deliver(SA);
+        deliver(libc::SIGHUP);
+        deliver(libc::SIGHUP);
         seq_verdict();
         kani::cover!(fill == libc::vshim::net::PAIR_CAP, "self-pipe completely full");
         core::mem::forget(s);
